@@ -229,7 +229,9 @@ class RDDM(BaseSPCError):
     def reset(self) -> None:
         """Reset method."""
         super().reset()
+        self.num_warnings = 0
         self.rddm_drift = False
+        self.predictions.clear()
 
     def _update(  # pylint: disable=too-many-branches
         self,
